@@ -69,8 +69,9 @@ def matrix_to_triangle(mat: Matrix) -> Triangle:
         )
         for i in range(mat.data.shape[2])
     ]
+    min_resolution = min(mat.index._exp_resolution, mat.index._dev_resolution)
     dev_lags = [
-        float(mat.index._dev_origin + i * mat.index._dev_resolution)
+        float(mat.index._dev_origin + i * min_resolution)
         for i in range(mat.data.shape[3])
     ]
 
